@@ -167,3 +167,80 @@ def unify_progress(ps, p, eng=None, want_k=False):
         h, pre = lmap[k]
         sub[h] = ('+', pre, K) if s_ == 1 else ('-', pre, K)
     return (sub, K) if want_k else sub
+
+
+def bracket_rule(ck, rule, u, eng_factory, files, key='brackets', skip=()):
+    """Set / clear pairing of instance flags.  A function that puts a constant into a field of an object it was handed (a
+    guard, a busy mark, an in-progress state) and, further down the same path, puts a different constant there has
+    bracketed a piece of work with that field.  The closing store belongs to EVERY way out of the bracket: a return taken
+    between the two stores (the failure path) leaves the field in its opening value for all later calls - which then
+    refuse, skip or mis-handle work although nothing is in progress.  Decided on all paths of every function of `files`:
+    open/close values are learnt from the paths that have both; a return path whose last store to the field is an
+    opening value is reported.  No names, no list of flags: any field bracketed anywhere is held to it."""
+    from .. import sym as _sym, cast as _cast
+    nfun = nbr = 0
+    bad = []
+    for fn, fd in sorted(u.functions.items()):
+        if fn in skip or not (_cast.node_file(fd) or '').endswith(tuple(files)):
+            continue
+        params = [('v', p_['name']) for p_ in u.params(fn) if '*' in _cast.qual_type(p_)]
+        if not params:
+            continue
+        try:
+            ps = eng_factory().paths(fn)
+        except (_sym.Unsupported, _sym.PathLimit):
+            continue                                # the property's own rules say so where it matters
+        nfun += 1
+        seqs = []
+        for p_ in ps:
+            if p_.end != 'return':
+                continue
+            seq = {}
+            for e in p_.stores():
+                if isinstance(e.name, tuple) and e.name[0] == 'f' and any(_sym.rooted_at(e.name, r) for r in params):
+                    v_ = _strip_cast(e.args[0])
+                    # a constant, the value the field had when the call began (saved and written back), or something else
+                    seq.setdefault(e.name, []).append((v_[1] if _sym.is_c(v_) else ('INIT' if v_ == e.name else ('other', _sym.fmt(v_))), e))
+            seqs.append((p_, seq))
+        # a bracket: the path found the field in state b (its guard says so: `if (busy) return ..;`), stored a != b, and
+        # - on at least one way out - stored b again.  Then b is what every way out has to leave.
+        def entry_value(p_, k):
+            vs_ = seq_of.get(id(p_), {}).get(k)
+            if vs_ and vs_[-1][0] == 'INIT' or any(sq.get(k) and sq[k][-1][0] == 'INIT' and sq[k][0][0] != 'INIT' for _, sq in seqs):
+                return 'INIT'               # save / modify / restore: the closing value is what the call found
+            for c in p_.cond_terms():
+                if c[0] == 'cmp' and c[1] == '==' and _strip_cast(c[2]) == k and _sym.is_c(c[3]):
+                    return c[3][1]
+            return None
+        seq_of = {id(p_): sq for p_, sq in seqs}
+        closed = {}
+        for p_, seq in seqs:
+            for k, vs in seq.items():
+                b = entry_value(p_, k)
+                vals = [v for v, e in vs]
+                if b is not None and len(vals) >= 2 and vals[0] != b and vals[-1] == b:
+                    closed.setdefault(k, set()).add(b)
+        for k, bs in closed.items():
+            nbr += 1
+            for p_, seq in seqs:
+                vs = seq.get(k)
+                b = entry_value(p_, k)
+                if not vs or b is None or b not in bs:
+                    continue
+                last, e = vs[-1]
+                if last != b:
+                    bad.append((fn, k, '%s finds %s == %s, sets it to %s at %s and returns %s under {%s} without putting it back, as its other paths do: the change outlives '
+                                'the operation it brackets, and every later call works on it' % (
+                                    fn, _sym.fmt(k), 'what the caller set up' if b == 'INIT' else b, last[1] if isinstance(last, tuple) else last, e.where(),
+                                    _sym.fmt(p_.ret) if p_.ret is not None else 'void',
+                                    '; '.join(_sym.fmt(c) for c in p_.cond_terms()[-3:])[:160])))
+                    break
+    seen = set()
+    for fn, k, msg in bad:
+        if (fn, k) in seen:
+            continue
+        seen.add((fn, k))
+        ck.violation(rule, '%s:%s:%s' % (key, fn, _sym.fmt(k)), _cast.where(u.fn(fn)), msg)
+    if not bad:
+        ck.holds(rule, key, ', '.join(files), 'every field a function brackets a piece of work with (%d such fields in %d functions looked at) is closed on every way out' % (nbr, nfun))
+    return nfun
